@@ -25,7 +25,7 @@ type Profile struct {
 }
 
 func weighted(w map[string]int) []string {
-	order := []string{"resolve", "reserr", "state", "pick", "done", "adv", "failnew", "cancel", "allready", "bindflow", "decall", "readyrepl", "staledown", "emptypool", "saturate", "refreshcycle", "stalede", "affswap", "fbflow", "bindacross", "growmax"}
+	order := []string{"resolve", "reserr", "state", "pick", "done", "adv", "failnew", "cancel", "allready", "bindflow", "decall", "readyrepl", "staledown", "emptypool", "saturate", "refreshcycle", "stalede", "affswap", "fbflow", "bindacross", "growmax", "multibind"}
 	var out []string
 	for _, k := range order {
 		for i := 0; i < w[k]; i++ {
@@ -231,6 +231,18 @@ func genStep(p *Profile, cfg *Config) *rapid.Generator[[]Op] {
 					Op{K: "pick", M: 2, Key: key}, Op{K: "pick", M: 2, Key: key})
 			}
 			return ops
+		case "multibind":
+			// a BIND whose response carries several keys, some of them bound already; then the keys are used
+			k1 := rapid.IntRange(0, 3).Draw(t, "mk1")
+			reply := rapid.SliceOfN(rapid.IntRange(0, 3), 1, 3).Draw(t, "mreply")
+			if rapid.Bool().Draw(t, "boundfirst") {
+				reply = append([]int{k1}, reply...)
+			}
+			ops := []Op{{K: "pick", M: 1, Key: k1}, {K: "done", Idx: -1, Out: 0}, {K: "pick", M: 0}, {K: "pick", M: 4, Key: k1}, {K: "done", Idx: -1, Out: 0, Rep: 1, Reply: reply}}
+			for _, k := range reply {
+				ops = append(ops, Op{K: "pick", M: rapid.SampledFrom([]int{2, 2, 5}).Draw(t, "mm"), Key: k}, Op{K: "pick", M: 2, Key: k})
+			}
+			return ops
 		case "growmax":
 			// keep calls open and bring every new channel up until the pool cannot grow any more
 			per := cfg.WM
@@ -322,7 +334,7 @@ var hostileMethods = []int{0, 1, 2, 3, 4, 5, 6, 7, 8, 9}
 // Profiles by name.
 var Profiles = map[string]*Profile{
 	"affinity": {Name: "affinity", Min: [2]int{1, 4}, Max: [2]int{1, 5}, WM: []int{1, 2, 3, 100}, Fallback: 30, UdMs: []int64{0, 7, 100}, UdCalls: []int{1, 1, 2}, Strict: 50, Shutdown: true,
-		W: map[string]int{"resolve": 1, "state": 8, "pick": 18, "done": 10, "adv": 2, "allready": 2, "bindflow": 10, "decall": 8, "readyrepl": 8, "staledown": 3, "affswap": 8, "fbflow": 2, "stalede": 1, "bindacross": 6}, Methods: allMethods},
+		W: map[string]int{"resolve": 1, "state": 8, "pick": 18, "done": 10, "adv": 2, "allready": 2, "bindflow": 10, "decall": 8, "readyrepl": 8, "staledown": 3, "affswap": 8, "fbflow": 2, "stalede": 1, "bindacross": 6, "multibind": 6}, Methods: allMethods},
 	"load": {Name: "load", Min: [2]int{1, 5}, Max: [2]int{1, 5}, WM: []int{1, 2, 3, 4, 5}, Fallback: 20, UdMs: []int64{0, 7, 100}, UdCalls: []int{1, 2}, RR: 15, Strict: 50,
 		W: map[string]int{"resolve": 1, "state": 8, "pick": 25, "done": 22, "adv": 2, "allready": 3, "bindflow": 3, "decall": 6, "readyrepl": 6, "staledown": 3, "saturate": 3, "refreshcycle": 3, "stalede": 2}, Methods: []int{0, 0, 0, 0, 2, 2, 9, 1, 3}},
 	"size": {Name: "size", Wild: true, WM: []int{1}, Fallback: 10, UdMs: []int64{0, 7}, UdCalls: []int{1}, Strict: 50, Shutdown: true,
@@ -330,7 +342,7 @@ var Profiles = map[string]*Profile{
 	"states": {Name: "states", Min: [2]int{1, 4}, Max: [2]int{1, 5}, WM: []int{1, 2, 100}, Fallback: 30, UdMs: []int64{7, 100}, UdCalls: []int{1}, Strict: 50, Shutdown: true, Hostile: true,
 		W: map[string]int{"resolve": 1, "state": 30, "pick": 8, "done": 4, "adv": 1, "allready": 2, "decall": 8, "readyrepl": 8, "staledown": 4, "refreshcycle": 3}, Methods: allMethods},
 	"hostile": {Name: "hostile", Wild: true, WM: []int{1}, Fallback: 50, UdMs: []int64{0, 1, 7}, UdCalls: []int{0, 1}, RR: 25, Strict: 50, Shutdown: true, Hostile: true, CfgOps: true, NoFirst: 20,
-		W: map[string]int{"resolve": 4, "reserr": 1, "state": 12, "pick": 20, "done": 10, "adv": 2, "failnew": 3, "cancel": 2, "allready": 3, "bindflow": 4, "decall": 6, "readyrepl": 5, "staledown": 3, "emptypool": 1, "saturate": 2, "affswap": 3, "fbflow": 3, "refreshcycle": 2, "bindacross": 2}, Methods: hostileMethods},
+		W: map[string]int{"resolve": 4, "reserr": 1, "state": 12, "pick": 20, "done": 10, "adv": 2, "failnew": 3, "cancel": 2, "allready": 3, "bindflow": 4, "decall": 6, "readyrepl": 5, "staledown": 3, "emptypool": 1, "saturate": 2, "affswap": 3, "fbflow": 3, "refreshcycle": 2, "bindacross": 2, "multibind": 2}, Methods: hostileMethods},
 	"detector": {Name: "detector", Min: [2]int{1, 3}, Max: [2]int{1, 3}, WM: []int{100, 100, 2}, UdMs: []int64{0, 1, 7, 100, 60000, 1 << 31, 1<<32 - 1}, UdCalls: []int{0, 1, 2, 3, 4}, Strict: 50, Shutdown: true,
 		W: map[string]int{"resolve": 1, "state": 5, "pick": 8, "done": 8, "adv": 4, "failnew": 3, "allready": 2, "decall": 24, "readyrepl": 10, "refreshcycle": 10, "stalede": 8}, Methods: []int{0, 0, 2, 1}},
 	"fallback": {Name: "fallback", Min: [2]int{2, 4}, Max: [2]int{2, 4}, WM: []int{1, 2, 3}, Fallback: 100, UdMs: []int64{0, 7, 100}, UdCalls: []int{1}, Strict: 50,
